@@ -536,6 +536,121 @@ def malformed_case(ctx, M, rng):
             ctx.violation("documented ValueError not raised (" + kind + ")", case, "err:ValueError", str(impl[1])[:120])
 
 
+# ------------------------------------------------------------------------------------------
+# model-free predicates (exact python oracle + relations between public calls)
+# ------------------------------------------------------------------------------------------
+def o_maxmin(f, o, w):
+    """exact max-min of pooled block averages: {forecast: value} over the NaN-free pairs"""
+    groups = {}
+    for k in range(len(f)):
+        if np.isnan(f[k]) or np.isnan(o[k]) or (w is not None and np.isnan(w[k])):
+            continue
+        wk = Fraction(1) if w is None else Fraction(float(w[k]))
+        g = groups.setdefault(Fraction(float(f[k])), [Fraction(0), Fraction(0)])
+        g[0] += wk
+        g[1] += wk * Fraction(float(o[k]))
+    keys = sorted(groups)
+    out = []
+    for i in range(len(keys)):
+        best = None
+        for j in range(i + 1):
+            sw = swy = Fraction(0)
+            lo = None
+            for k in range(j, len(keys)):
+                sw += groups[keys[k]][0]
+                swy += groups[keys[k]][1]
+                if k >= i:
+                    a = swy / sw
+                    lo = a if lo is None or a < lo else lo
+            best = lo if best is None or lo > best else best
+        out.append(best)
+    return keys, out
+
+
+def oracle_fit_case(ctx, M, rng):
+    f, o, w = gen_pairs(rng)
+    n = len(f)
+    functional, solver, q = rand_functional(rng, w is not None)
+    shape = rand_shape(rng, n)
+    case = {"fn": "isotonic_fit", "shape": list(shape), "fcst": f, "obs": o, "weight": w, "functional": functional,
+            "solver": solver, "quantile_level": q, "int_obs": False}
+    impl = core.call_impl(M.isotonic_fit, np.array(f).reshape(shape), np.array(o).reshape(shape),
+                          **kwargs(functional, solver, q, None if w is None else np.array(w).reshape(shape)))
+    valid = [k for k in range(n) if not (np.isnan(f[k]) or np.isnan(o[k]) or (w is not None and np.isnan(w[k])))]
+    ctx.case(("oracle-fit", repr(case)), len(valid) >= 2)
+    if impl[0] == "err":
+        if valid or impl[1] != "err:ValueError":
+            ctx.violation("isotonic_fit raises on valid input (or not a ValueError when no pair is left)", case, "a fit", impl[1])
+        return
+    res = impl[1]
+    try:
+        block_check(ctx, res, f, o, w, functional, solver, q, case)
+    except Exception as ex:  # noqa: BLE001
+        ctx.violation("result dictionary is inconsistent (" + type(ex).__name__ + ")", case, "consistent arrays", summary_str(res))
+    if functional == "mean":
+        keys, vals = o_maxmin(f, o, w)
+        if not (core.close_list(res["fcst_sorted"], keys) and core.close_list(res["regression_values"], vals)):
+            ctx.violation("mean-functional fit differs from the max-min of block averages (python oracle)", case, [str(v) for v in vals],
+                          res["regression_values"].tolist())
+    if functional is not None or solver in SYMMETRIC:
+        perm = list(range(n))
+        rng.shuffle(perm)
+        shape2 = rand_shape(rng, n)
+        r2 = M.isotonic_fit(np.array([f[k] for k in perm]).reshape(shape2), np.array([o[k] for k in perm]).reshape(shape2),
+                            **kwargs(functional, solver, q, None if w is None else np.array([w[k] for k in perm]).reshape(shape2)))
+        if not (np.allclose(r2["fcst_sorted"], res["fcst_sorted"]) and np.array_equal(r2["fcst_counts"], res["fcst_counts"])
+                and np.allclose(r2["regression_values"], res["regression_values"], rtol=1e-9, atol=1e-12)):
+            ctx.violation("fit changes when the input pairs are permuted / reshaped", dict(case, permutation=perm, shape2=list(shape2)),
+                          summary_str(res), summary_str(r2))
+    if len(valid) < n and valid:
+        r3 = M.isotonic_fit(np.array([f[k] for k in valid]), np.array([o[k] for k in valid]),
+                            **kwargs(functional, solver, q, None if w is None else np.array([w[k] for k in valid])))
+        if not (np.array_equal(r3["fcst_sorted"], res["fcst_sorted"]) and np.array_equal(r3["fcst_counts"], res["fcst_counts"])
+                and np.allclose(r3["regression_values"], res["regression_values"], rtol=1e-9, atol=1e-12, equal_nan=True)):
+            ctx.violation("pairs containing a NaN are not ignored: the fit differs from the fit with those pairs deleted", case, summary_str(r3), summary_str(res))
+
+
+def oracle_pav_case(ctx, M, rng):
+    n = rng.randint(1, 10)
+    y = [float(Fraction(rng.randint(0, 10), 2)) if rng.random() < 0.7 else float(rng.randint(0, 3)) for _ in range(n)]
+    w = [float(rng.choice([Fraction(1, 2), Fraction(1), Fraction(2), Fraction(3)])) for _ in range(n)] if rng.random() < 0.5 else None
+    for name, p in SOLVERS:
+        if name not in ("mean", "max", "min", "quantile"):
+            continue
+        got = M._contiguous_ir(np.array(y), py_solver(name, p), weight=None if w is None else np.array(w))
+        case = {"fn": "_contiguous_ir", "y": y, "weight": w, "solver": [name, p]}
+        ctx.case(("oracle-pav", tuple(y), None if w is None else tuple(w), name, p), n >= 2)
+        if any(b < a - 1e-9 for a, b in zip(got, got[1:])):
+            ctx.violation("_contiguous_ir: the fit is not non-decreasing", case, "non-decreasing", got.tolist())
+        sv = py_solver(name, p)
+        i = 0
+        while i < n:
+            j = i
+            while j + 1 < n and abs(got[j + 1] - got[i]) <= 1e-9 * max(1.0, abs(got[i])):
+                j += 1
+            ya = np.array(y[i:j + 1])
+            expect = sv(ya) if w is None else sv(ya, np.array(w[i:j + 1]))
+            if abs(expect - got[i]) > 1e-9 * max(1.0, abs(expect)):
+                ctx.violation("_contiguous_ir: a maximal constant block differs from the solver applied to the block's observations",
+                              dict(case, block=[i, j]), expect, float(got[i]))
+                break
+            i = j + 1
+
+
+def run_without_model(ctx):
+    """used when the extracted model does not build against the current source: oracle and relations between public calls only"""
+    M = I()
+    rng = ctx.rng
+    for _ in range(ctx.n(300, 4000)):
+        if not ctx.time_left():
+            break
+        oracle_pav_case(ctx, M, rng)
+    for _ in range(ctx.n(900, 12000)):
+        if not ctx.time_left():
+            break
+        oracle_fit_case(ctx, M, rng)
+
+
 def known_cases(ctx, M):
     """recorded defect (known_findings.d/C15.json): integer obs with a non-mean functional"""
     f, o = [1, 2], [3, 0]
@@ -599,6 +714,11 @@ def run(ctx):
         if not ctx.time_left():
             break
         fit_case(ctx, M, rng, i)
+    for _ in range(ctx.n(150, 6000)):
+        if not ctx.time_left():
+            break
+        oracle_fit_case(ctx, M, rng)
+    ctx.count("oracle_fit_cases", ctx.n(150, 6000))
     for _ in range(ctx.n(150, 6000)):
         if not ctx.time_left():
             break
